@@ -10,6 +10,7 @@ def run(ck):
     ck.proof = vf.prove("Properties_C05")
     q = ck.quick()
     diffs = []   # (family, case, {backend: output})
+    lane_diffs = []
     nrun = 0
     # ---- 1. functors: every value printed by every build must equal the serial functor's value
     res = vf.build_many([dict(name="h_ops", srcs=["h_ops.cpp"], backend=b) for b in ("serial", "opt", "sse", "avx2")])
@@ -24,8 +25,30 @@ def run(ck):
         for b in outs:
             if i < len(outs[b]): vals.update(v for v in outs[b][i].split() if v != "skip")
         nrun += len(outs)
-        if len(vals) > 1: diffs.append(("functor " + stream, line, {b: outs[b][i] for b in outs}))
+        if len(vals) > 1:
+            # the butterfly works on lazy residues that no caller sees: a difference there breaks the correspondence
+            # (the transforms below decide whether a result differs); every other functor's value is a user-visible result
+            if line.startswith("bfly"): lane_diffs.append(("all", stream, line, str({b: outs[b][i] for b in outs}), "identical words in every build"))
+            else: diffs.append(("functor " + stream, line, {b: outs[b][i] for b in outs}))
     ck.stream("functors: scalar vs SSE lanes vs AVX2 lanes (4 builds)", len(cases))
+    # ---- 1b. the per-lane Coq models of the vector kernels (SimdKernels.v, extracted) against the vector lanes of the SSE/AVX2 builds
+    model, minfo = vf.build_model()
+    nlane = 0
+    if model:
+        rc, mout, merr = vf.run_io([model, "lanes"], data)
+        ml = mout.rstrip("\n").split("\n")
+        if rc != 0 or len(ml) != len(cases):
+            ck.violation("lane-model runner failed: %s" % merr[-300:], {"stderr": merr[-1000:]}, tag="lanemodel", no_input=True)
+        else:
+            for i, (stream, line) in enumerate(cases):
+                if ml[i] in ("na", "none"): continue
+                for b in ("sse", "avx2"):
+                    if b in outs and i < len(outs[b]):
+                        vec = [v for v in outs[b][i].split()[1:] if v != "LANE_MISMATCH"]
+                        nlane += len(vec)
+                        if any(v != ml[i] for v in vec):
+                            lane_diffs.append((b, stream, line, outs[b][i], ml[i]))
+    ck.stream("vector lanes of the SSE/AVX2 kernels vs the extracted per-lane models (addmod, submod, mulmod_shoup, muladd_shoup, butterfly)", max(nlane, 1))
     # ---- 2. transforms / products / expressions / comparisons: identical case files through the three builds
     def cross(name, cases, exes, get_exe):
         nonlocal nrun
@@ -81,7 +104,12 @@ def run(ck):
     ck.samples = [c[1][:150] for c in cases[::max(1, len(cases) // 4)]][:4] + [c[-1][:150] for c in ncases[::max(1, len(ncases) // 4)]][:4]
     for fam, case, d in diffs[:3]:
         ck.violation("builds disagree: %s case='%s' outputs=%s" % (fam, case[:140], {k: v[:80] for k, v in d.items()}), {"family": fam, "case": case, "outputs": d}, tag="xbuild")
-    if not diffs and not ck.proof["ok"]:
+    for b, stream, line, got, want in lane_diffs[:3]:
+        # the lane model is proved equal to the scalar functor: a vector lane that differs from it while all builds agree is a broken
+        # correspondence (no property failure exhibited); when builds disagree the xbuild violation above carries the input
+        ck.violation("vector lane differs from the per-lane model: backend=%s case='%s' impl='%s' lane model=%s" % (b, line, got, want),
+                     {"backend": b, "stream": stream, "case": line, "impl": got, "lane_model": want}, tag="lanemodel", no_input=not diffs)
+    if not diffs and not lane_diffs and not ck.proof["ok"]:
         ck.violation("proof obligation no longer checks: %s" % ck.proof["broken"], {"broken_obligation": ck.proof["broken"]}, tag="obligation", no_input=True)
     ck.assumptions = ["configurations restricted to those all three builds accept", "big-integer conversion and serialisation contain no back-end specific code (single definition in the model; compared here)"]
     return ck.finish(trusted=["coqc 8.16.1 kernel", "g++ 12.2 intrinsics on this CPU (AVX2 available)", "harnesses h_ops/h_ntt/h_expr/h_interchange"], extra_cov={"params_sha": info})
